@@ -210,5 +210,14 @@ PROPS['C20'] = dict(
   units=[U('perm_d2', 'C20_coxeter.cpp', ['VP_D=2'], weight=5), U('perm_d3', 'C20_coxeter.cpp', ['VP_D=3', 'VP_NO_SECOND'], weight=10), U('locate_d2', 'C20_coxeter.cpp', ['VP_D=2', 'VP_LOCATE'], weight=4), U('locate_d3', 'C20_coxeter.cpp', ['VP_D=3', 'VP_LOCATE'], weight=8),
          U('perm_d4', 'C20_coxeter.cpp', ['VP_D=4', 'VP_NO_SECOND'], tiers=['thorough'], weight=40), U('locate_d4', 'C20_coxeter.cpp', ['VP_D=4', 'VP_LOCATE'], tiers=['thorough'], weight=30)])
 
+# ------------------------------------------------------------------------------------------------ C04
+PROPS['C04'] = dict(
+  explanation='Bounded symbolic execution of the real Simplex_tree::expansion, expansion_with_blockers, insert_edge_as_flag (+ make_filtration_non_decreasing) and Rips_complex::create_complex (clang IR of the headers in /repo): presence and weight of every possible edge, vertex values, the maximal dimension, the blocked set and the edge insertion order are solver variables; every route is compared with a clique-enumeration oracle (membership of all 2^n vertex sets, values, number of reported simplices) and the routes with each other (operator==).',
+  bounds=dict(quick='n=4 vertices, each of the 6 edges absent or weighted 1..2, vertex values 0..1, d in 1..3, non-contiguous labels, blocked sets over the 5 vertex sets with >=3 vertices, 7 insertion orders; Rips from a distance matrix with thresholds 0..2', thorough='n=5 (10 edges, weights 0..1 with 4 more symbolic), double filtration values'),
+  outside=['graphs with more than 5 vertices', 'Rips from point coordinates (Euclidean distance of symbolic coordinates)', 'stateful blocker oracles'],
+  units=[U('flag_n4', 'C04_flag.cpp', ['VP_N=4', 'VP_WMAX=2'], weight=8, must_reach=['end', 'edges-in-order', 'edges-rotated']), U('flag_n4_labels_block', 'C04_flag.cpp', ['VP_N=4', 'VP_WMAX=1', 'VP_LABELS=1', 'VP_BLOCK', 'VP_NOEDGEFLAG'], weight=8, must_reach=['end', 'blockers']),
+         U('flag_n4_rips', 'C04_flag.cpp', ['VP_N=4', 'VP_WMAX=2', 'VP_RIPS', 'VP_NOEDGEFLAG'], weight=8, must_reach=['end', 'rips']), U('flag_n3_double', 'C04_flag.cpp', ['VP_N=3', 'VP_WMAX=2', 'VP_FT=double', 'VP_BLOCK'], weight=4, must_reach=['end']),
+         U('flag_n5', 'C04_flag.cpp', ['VP_N=5', 'VP_WMAX=1'], tiers=['thorough'], weight=40, must_reach=['end']), U('flag_n4_double_block', 'C04_flag.cpp', ['VP_N=4', 'VP_WMAX=2', 'VP_FT=double', 'VP_BLOCK'], tiers=['thorough'], weight=40, must_reach=['end'])])
+
 NOT_APPLICABLE = {}
 NOTES = 'Clauses outside every claim: real thread schedules/TBB execution (engine is sequential), iostream text I/O, GMP arbitrary precision, Eigen-based Coxeter point location under general affine maps, SIMD paths of boost::unordered_flat_map (compiled with -U__SSE2__), allocation failure, inputs beyond the stated bounds.'
